@@ -15,7 +15,7 @@ func init() { hx.Register("C12", Run, Replay) }
 type kase struct {
 	Seed  uint64 `json:"seed"`
 	Index int    `json:"index"`
-	Mode  string `json:"mode"` // doc | layout | fixed | nested | e2e | sent | usp | addpage | history | atomic | query
+	Mode  string `json:"mode"` // doc | layout | fixed | nested | e2e | sent | usp | addpage | history | atomic | query | intro | mdoc
 	Name  string `json:"name,omitempty"`
 }
 
@@ -140,10 +140,12 @@ func pagesOf(d ldoc) map[int]bool {
 func runDocCase(c *hx.Ctx, k kase, d ldoc, sz sizeCase, tie bool) {
 	var vs []cview
 	var nColl int
+	var chunks []*rag.Chunk
 	p := hx.Safe(func() {
 		coll := chunkDoc(sz, toModel(d))
 		vs = viewsOf(coll.Chunks)
 		nColl = coll.Count()
+		chunks = coll.Chunks
 	})
 	what := func() string { return fmt.Sprintf("config %s; %s", sz.Name, describe(d)) }
 	if !c.Check("C12/panic", p == "", k, func() string { return "panic: " + p + "; " + what() }) {
@@ -154,6 +156,12 @@ func runDocCase(c *hx.Ctx, k kase, d ldoc, sz sizeCase, tie bool) {
 		// the same with IsAboveMax/SplitToSize computed by the model of C13 (compose.go)
 		if w, ok := sizeWire(sz); ok && textBytes(d) <= 30000 {
 			c.Op("c12.chunkc "+w+" "+docWire(d), dumpChunks(vs))
+			// … and every other field of ChunkMetadata (Model/ChunkMeta.lean, intro.go); every second tied
+			// document and every fixed one (the quick tier has a minute)
+			if k.Index%2 == 0 {
+				c.Op("c12.chunkx "+w+" "+docWire(d), dumpMeta(chunks))
+				c.Count("doc/metadata-by-model")
+			}
 			if strings.Contains(dumpSplit(d, effCfg(sz)), ":") {
 				c.Count("doc/splitter-by-model/some-block-split")
 			} else {
@@ -165,6 +173,7 @@ func runDocCase(c *hx.Ctx, k kase, d ldoc, sz sizeCase, tie bool) {
 	checkChunks(c, coverOpts{prefix: "C12/", kinds: allKinds, crossKind: true, exactPage: true, inPath: allKinds, pages: pagesOf(d)},
 		atoms, vs, k, what)
 	c.Check("C12/total", nColl == len(vs), k, func() string { return fmt.Sprintf("Count()=%d, %d chunks", nColl, len(vs)) })
+	checkMeta(c, k, chunks, what)
 
 	// a chunk's path is unaffected by later headings: rename one later heading and
 	// compare every chunk that precedes it
@@ -417,6 +426,14 @@ func Run(c *hx.Ctx) {
 	for i, n := 0, c.N(300, 3000); i < n; i++ {
 		runAtomic(c, uspFrom+800000+i)
 	}
+	// one model.Document, Elements and Layout independent, through both entry points (mdoc.go)
+	for i, n := 0, c.N(400, 4000); i < n; i++ {
+		runMDoc(c, mdocFrom+i)
+	}
+	// isListIntro alone (intro.go)
+	for i, n := 0, c.N(600, 6000); i < n; i++ {
+		runIntro(c, introFrom+i)
+	}
 	// histories of reads on the collection a chunker returned (query.go)
 	for i, n := 0, c.N(700, 7000); i < n; i++ {
 		runQuery(c, queryFrom+i)
@@ -502,6 +519,10 @@ func Replay(c *hx.Ctx, ks map[string]interface{}) {
 		runAtomic(c, int(idx))
 	case "query":
 		runQuery(c, int(idx))
+	case "intro":
+		runIntro(c, int(idx))
+	case "mdoc":
+		runMDoc(c, int(idx))
 	case "e2e":
 		runEndToEnd(c)
 	}
